@@ -2,6 +2,7 @@ package sim
 
 import (
 	"fmt"
+	"reflect"
 	"sort"
 	"strings"
 	"time"
@@ -136,6 +137,13 @@ type World struct {
 	Pods  []*v1.Pod
 
 	ViewNodes []*v1.Node // what the listers return
+	// ViewTruth is parallel to ViewNodes: the pristine copy of what the informer cache received for
+	// that entry. The listers hand out the *same* objects scan after scan until the API object changes
+	// (shared informer semantics), so a caller that writes into a listed object corrupts its own
+	// later scans; monitors judge by ViewTruth.
+	ViewTruth []*v1.Node
+	viewObj   map[string]*v1.Node
+	viewSrc   map[string]*v1.Node
 	ViewPods  []*v1.Pod
 
 	ASGs []*ASG // sorted by name
@@ -423,9 +431,19 @@ func (w *World) RemovePod(i int) {
 // Sync copies the API store into the informer view (deep copies, store order).
 func (w *World) Sync() {
 	w.ViewNodes = make([]*v1.Node, len(w.Nodes))
+	w.ViewTruth = make([]*v1.Node, len(w.Nodes))
+	objs, srcs := make(map[string]*v1.Node, len(w.Nodes)), make(map[string]*v1.Node, len(w.Nodes))
 	for i, n := range w.Nodes {
-		w.ViewNodes[i] = n.DeepCopy()
+		key := n.Name + "/" + string(n.UID)
+		if src, ok := w.viewSrc[key]; ok && reflect.DeepEqual(src, n) {
+			// unchanged in the API since the cache received it: the cache still holds the same object
+			w.ViewNodes[i], w.ViewTruth[i] = w.viewObj[key], src
+		} else {
+			w.ViewNodes[i], w.ViewTruth[i] = n.DeepCopy(), n.DeepCopy()
+		}
+		objs[key], srcs[key] = w.ViewNodes[i], w.ViewTruth[i]
 	}
+	w.viewObj, w.viewSrc = objs, srcs
 	w.ViewPods = make([]*v1.Pod, len(w.Pods))
 	for i, p := range w.Pods {
 		w.ViewPods[i] = p.DeepCopy()
@@ -477,6 +495,16 @@ func (w *World) Settle() {
 		pk = append(pk, p)
 	}
 	w.Pods = pk
+}
+
+// AddPendingInstance adds an instance to the ASG (desired capacity grows with it) that stays in the
+// pending state: it never becomes a Node (a machine that fails to boot or to join the cluster).
+func (w *World) AddPendingInstance(a *ASG) string {
+	id := w.newInstanceID(a.Name)
+	a.Instances = append(a.Instances, AInst{ID: id, AZ: azOf(id)})
+	a.Desired++
+	w.EC2[id] = &Inst{ID: id, State: "pending", Launch: time.Now(), ASG: a.Name}
+	return id
 }
 
 // SeqInst is the instance-id counter (part of the canonical state: it names future instances).
